@@ -239,6 +239,15 @@ def shapes():
     if b != ("letmode_subset=matchself.mode{Mode::A=>InfoSubset::SPLIT_A,Mode::B=>InfoSubset::SPLIT_B,_=>InfoSubset::empty(),};"
              "letnew_subset=(subset|mode_subset).normalize();std::mem::replace(&mutself.subset,new_subset|mode_subset)"):
         raise F.FactError("StatefulTokenizer::set_subset changed shape: %r" % b)
+    # the glue that hands results over: the list receives a COPY of the tokenizer's subset, the tokenizer keeps its own
+    b = norm_ws(F.fn_body(t, "swap_result", rel))
+    if b != "std::mem::swap(&mutself.input,input);std::mem::swap(self.top_path.as_mut().unwrap(),result);*subset=self.subset;":
+        raise F.FactError("StatefulTokenizer::swap_result changed shape: %r" % b)
+    rel = "sudachi/src/analysis/mlist.rs"
+    t = F.strip_comments(F.src(rel))
+    b = norm_ws(F.fn_body(t, "collect_results", rel))
+    if "analyzer.swap_result(&mutmref.input,&mutself.nodes.mut_data(),&mutmref.subset,);" not in b:
+        raise F.FactError("MorphemeList::collect_results no longer hands (input, nodes, subset) to swap_result: %r" % b)
     return fallbacks, data_fields
 
 
